@@ -13,7 +13,9 @@ struct LevelPair {
     std::unique_ptr<Interpolation> interp;
 
     // coarse_split_mode: 0 automatic (as coarseningGrid does), 1 explicit with `coarse_circles` circles
-    void build(const ProblemSpec& p, int nthreads, int coarse_split_mode, int coarse_circles)
+    // depth: level depth of the fine level (the coarse one has depth+1): the transfer operators are defined for any pair of
+    // consecutive levels, not only for the two finest ones
+    void build(const ProblemSpec& p, int nthreads, int coarse_split_mode, int coarse_circles, int depth = 0)
     {
         geometry     = p.makeGeometry();
         coefficients = p.makeCoefficients();
@@ -33,9 +35,9 @@ struct LevelPair {
         }
         auto flc = std::make_unique<LevelCache>(*fg, *coefficients, *geometry, true, false);
         auto clc = std::make_unique<LevelCache>(*cg, *coefficients, *geometry, true, false);
-        fine     = std::make_unique<Level>(0, std::move(fg), std::move(flc), ExtrapolationType::NONE, false);
-        coarse   = std::make_unique<Level>(1, std::move(cg), std::move(clc), ExtrapolationType::NONE, false);
-        threads  = {nthreads, nthreads};
+        fine     = std::make_unique<Level>(depth, std::move(fg), std::move(flc), ExtrapolationType::NONE, false);
+        coarse   = std::make_unique<Level>(depth + 1, std::move(cg), std::move(clc), ExtrapolationType::NONE, false);
+        threads  = std::vector<int>(depth + 2, nthreads);
         interp   = std::make_unique<Interpolation>(threads, p.dirbc);
     }
 };
